@@ -282,7 +282,7 @@ def sigma_ctl():
 
 
 def sigma_mid():
-    """21 symbols used INSIDE fixed contexts (see contexts()): signature (i32 i32)->i32, no extra locals, import 0 = mark"""
+    """23 symbols used INSIDE fixed contexts (see contexts()): signature (i32 i32)->i32, no extra locals, import 0 = mark"""
     S = []
     S.append(Sym('i32.const', 'simple', (), ('i',), 'i', 'const'))
     S.append(Sym('drop', 'drop', enc=DROP))
@@ -300,6 +300,8 @@ def sigma_mid():
     for d in range(2):
         S.append(Sym('br_if %d' % d, 'br_if', arg=d, enc=br_if(d)))
     S.append(Sym('br_table[0]1', 'br_table', arg=((0,), 1), enc=br_table([0], 1)))
+    S.append(Sym('br_table[]0', 'br_table', arg=((), 0), enc=br_table([], 0)))      # empty label vector: only the default target
+    S.append(Sym('br_table[]1', 'br_table', arg=((), 1), enc=br_table([], 1)))
     S.append(Sym('return', 'return', enc=RETURN))
     S.append(Sym('unreachable', 'unreachable', enc=UNREACHABLE))
     S.append(Sym('mark', 'simple', ('i',), ('i',), enc=call(0)))
@@ -354,6 +356,7 @@ def sigma_typed(T, params='iI', local_groups=((1, 'f'), (2, 'F'), (1, 'i'))):
     S.append(Sym('br 1', 'br', arg=1, enc=br(1)))
     S.append(Sym('br_if 0', 'br_if', arg=0, enc=br_if(0)))
     S.append(Sym('br_table[0]1', 'br_table', arg=((0,), 1), enc=br_table([0], 1)))
+    S.append(Sym('br_table[]0', 'br_table', arg=((), 0), enc=br_table([], 0)))
     S.append(Sym('return', 'return', enc=RETURN))
     return S, params, locs, T, local_groups
 
